@@ -76,3 +76,15 @@ def register(claim):
           note=NOTE_COMMON + ' no_duplicates on bool/date fields and the sign of an all-null field are not demanded. '
                'The SQLite side is exercised by the C08 check.',
           ref='DESIGN.md section 5, C07')
+    claim('C09',
+          technique='TLA+ case analysis of the .tdda load/dump pair on value classes (TddaFile.tla: Fixpoint, UnknownNeutral, '
+                    'OrderFree checked by TLC on every field dictionary of <= 3 keys); table concretized and cycled through the '
+                    'real loader/writer; write/load cycles recorded as traces and judged by Trace_TddaFile',
+          text='TLC enumerates 18k field dictionaries over {type, min, max, sign, max_nulls, rex, unknown, #comment} x value '
+               'classes (ints, reals, date strings in 4 spellings, precision dictionaries, nulls, lists) and checks the round-trip '
+               'laws on the transcription; every well-formed one is concretized (unicode names, quotes, backslashes, 17-digit '
+               'reals, microsecond fractions) and taken through 2-4 real write/load(path) cycles with verdict comparison on data '
+               'built around the bounds, as are constraint sets discovered from rich frames.',
+          note=NOTE_COMMON + " Text identity is demanded on the 'fields' section (loading from a path adds "
+               'creation_metadata.tddafile). Known finding D27 (Infinity tokens).',
+          ref='DESIGN.md section 5, C09')
